@@ -58,6 +58,11 @@ impl Gen {
             Profile::Completion => (4320, 6),
             _ => (*rng.pick(&[3u32, 10, 50, 4320, 4320]), *rng.pick(&[0u32, 1, 2, 6])),
         };
+        let mut duration = duration;
+        if profile == Profile::Expiry && rng.chance(1, 12) {
+            // saturation sub-mode: expiries at / near the top of the u32 range
+            duration = *rng.pick(&[u32::MAX, u32::MAX - 104, u32::MAX - 300, u32::MAX / 2 + 50]);
+        }
         let cfg = TowerCfg {
             slots,
             duration,
